@@ -272,6 +272,13 @@ def run(tier, replay=None):
     ctx = Ctx(res, wd, listed); ctx.kf = kf
     progs, catalogue = spec_programs(wd, tier, res)
     fams = set((os.environ.get("VERIF_C15_FAMILIES") or "probe,tree,compose,gen").split(","))    # developer knob
+    pf = os.environ.get("VERIF_C15_PROBE_FILTER")                                                  # developer knob
+    if pf:
+        progs = [j for j in progs if j["family"] != "probe" or re.search(pf, j["kind"])]
+    if tier == "quick":
+        # both spellings of a tree parse to the same AST, hence print the same; quick keeps the one that also exercises
+        # the parser's precedence rules (the specification's NeedsPar against the real grammar)
+        progs = [j for j in progs if j["family"] != "tree" or j["mode"] == "min"]
     probes = [j for j in progs if j["family"] == "probe" and "probe" in fams]
     others = [j for j in progs if j["family"] != "probe" and j["family"] in fams]
     rng = random.Random(seed() * 7919 + 15)
